@@ -27,6 +27,7 @@ EXHAUSTIVE = {"quick": True, "thorough": True}
 CUSTOM4 = ["A", "B", "C", "D"]
 CUSTOM6 = ["A", "B", "C", "D", "E", "F"]
 CUSTOM4W = ["a.", "b|", "c`", "d+"]
+CUSTOM4B = ["{ ", "{}", "}-", "{{"]  # segments with braces: a connector is text, never part of a format template
 
 
 def expected_lines(start_kids_or_nodes, style, render, level0):
@@ -192,7 +193,7 @@ def run_case(case, res):
     start = case["start"]
     variant = case["variant"]  # node: "self"/"noself"; tree: "default"/"notitle"/"text"
     bad = []
-    styles = [(k, list(v)) for k, v in CONNECTORS.items()] + [("custom4", CUSTOM4), ("custom6", CUSTOM6), ("custom4w", CUSTOM4W)]
+    styles = [(k, list(v)) for k, v in CONNECTORS.items()] + [("custom4", CUSTOM4), ("custom6", CUSTOM6), ("custom4w", CUSTOM4W), ("custom4b", CUSTOM4B)]
 
     eq = case.get("lab") == "eqsib"
 
@@ -236,7 +237,7 @@ def run_case(case, res):
             for sname, style in styles + [("list", None), ("default", None)]:
                 for rk in ("str", "call", "blank"):
                     for join in ("\n", ", "):
-                        if rk == "blank" and (join != "\n" or sname in ("list", "custom4w")):
+                        if rk == "blank" and (join != "\n" or sname in ("list", "custom4w", "custom4b")):
                             continue
                         # "blank": every node renders as the empty string - a line then consists of its prefix alone
                         rep = ("<{node.data_id}>" if eq else "<{node.data}>") if rk == "str" else tok if rk == "call" else (lambda node: "")
@@ -448,6 +449,28 @@ def run_case(case, res):
                     if g != expd:
                         bad.append(f"emptied tree: format({kwp}) gives {g!r}, expected {expd!r}")
                 res.count("emptied_tree_formats")
+            # state over time: the same tree formatted again after structural changes that remove nothing (a node appended
+            # behind the former last top node, a branch moved to another level) - the second text describes the new shape
+            if start == -1 and variant == "notitle" and rendered:
+                kwk = {"kind": "k"} if typed else {}
+                steps = [("append a top node", lambda: t.add("zz-late", **kwk)),
+                         ("prepend below the first top node", lambda: list(t.children)[0].prepend_child("zz-early", **kwk))]
+                movers = [x for x in rendered if list(x.children) and x.parent is not None and x.parent.parent is not None or (x.depth() >= 2)]
+                if movers:
+                    steps.append(("move a deep node to the top, first", lambda: movers[-1].move_to(t, before=True)))
+                if len(list(t.children)) >= 2:
+                    steps.append(("move the first top node to the end", lambda: list(t.children)[0].move_to(t)))
+                for what, op in steps:
+                    if isinstance(attempt(op), tuple):
+                        res.count("format_after_change_refused")
+                        continue
+                    for stn in ("round43", "ascii32", "custom4"):
+                        st = list(CONNECTORS[stn]) if stn in CONNECTORS else CUSTOM4
+                        g = attempt(lambda: t.format(repr=tok, title=False, style=stn if stn in CONNECTORS else tuple(CUSTOM4)))
+                        e = "\n".join(p_ + r_ for p_, r_ in expected_lines(None, st, tok, list(t.children)))
+                        res.count("formats_after_change")
+                        if g != e:
+                            bad.append(f"format(style={stn}) after '{what}' on a tree that was formatted before: got {g!r}, expected {e!r}")
             # invalid style
             g = attempt(lambda: t.format(style="nosuchstyle"))
             if not (isinstance(g, tuple) and g[1] == "ValueError"):
